@@ -15,7 +15,13 @@
 //! All of this lives in plain `core` atomics which are never scheduling points
 //! under shuttle, so the schedule space is that of upstream's single atomic.
 
-use core::sync::atomic::{AtomicBool, AtomicU32, AtomicU64};
+use core::sync::atomic::{AtomicBool, AtomicU32};
+
+// statistics counters: 64-bit where the target has such atomics (some 32-bit targets the interpreter simulates do not)
+#[cfg(target_has_atomic = "64")]
+type AtomicCtr = core::sync::atomic::AtomicU64;
+#[cfg(not(target_has_atomic = "64"))]
+type AtomicCtr = core::sync::atomic::AtomicU32;
 
 pub use core::sync::atomic::Ordering::Relaxed;
 
@@ -32,12 +38,12 @@ static EPOCH: AtomicU32 = AtomicU32::new(0);
 static MASK: AtomicBool = AtomicBool::new(false);
 static MIRI_GRANT: AtomicBool = AtomicBool::new(false);
 
-static DETECT_CALLS: AtomicU64 = AtomicU64::new(0);
-static MASKED_DECISIONS: AtomicU64 = AtomicU64::new(0);
-static CACHE_HITS: AtomicU64 = AtomicU64::new(0);
-static CACHE_MISSES: AtomicU64 = AtomicU64::new(0);
-static STALE_TOKEN_READS: AtomicU64 = AtomicU64::new(0);
-static TOKEN_READS: AtomicU64 = AtomicU64::new(0);
+static DETECT_CALLS: AtomicCtr = AtomicCtr::new(0);
+static MASKED_DECISIONS: AtomicCtr = AtomicCtr::new(0);
+static CACHE_HITS: AtomicCtr = AtomicCtr::new(0);
+static CACHE_MISSES: AtomicCtr = AtomicCtr::new(0);
+static STALE_TOKEN_READS: AtomicCtr = AtomicCtr::new(0);
+static TOKEN_READS: AtomicCtr = AtomicCtr::new(0);
 
 #[inline]
 fn tag() -> u32 {
@@ -139,11 +145,11 @@ pub struct Stats {
 /// Read the seam counters.
 pub fn stats() -> Stats {
     Stats {
-        detect_calls: DETECT_CALLS.load(Relaxed),
-        masked_decisions: MASKED_DECISIONS.load(Relaxed),
-        cache_hits: CACHE_HITS.load(Relaxed),
-        cache_misses: CACHE_MISSES.load(Relaxed),
-        token_reads: TOKEN_READS.load(Relaxed),
-        stale_token_reads: STALE_TOKEN_READS.load(Relaxed),
+        detect_calls: DETECT_CALLS.load(Relaxed) as u64,
+        masked_decisions: MASKED_DECISIONS.load(Relaxed) as u64,
+        cache_hits: CACHE_HITS.load(Relaxed) as u64,
+        cache_misses: CACHE_MISSES.load(Relaxed) as u64,
+        token_reads: TOKEN_READS.load(Relaxed) as u64,
+        stale_token_reads: STALE_TOKEN_READS.load(Relaxed) as u64,
     }
 }
